@@ -131,7 +131,7 @@ def _run(ctx, ncases, nsteps, rec):
       mujoco.mj_forward(mjm, mjd)
       m = mjw.put_model(mjm)
       d = mjw.put_data(mjm, mjd, nworld=1, naconmax=200, njmax=400)
-      hist_w, hist_m, meas_m, meas_w = [], [], [], []
+      hist_w, hist_m, meas_m, meas_w, raw_m = [], [], [], [], []
       prev_ta = d.tree_asleep.numpy()[0].copy()
       prev_qpos, prev_qvel = d.qpos.numpy()[0].copy(), d.qvel.numpy()[0].copy()
       woke_expect = []
@@ -169,10 +169,11 @@ def _run(ctx, ncases, nsteps, rec):
         qpos, qvel = d.qpos.numpy()[0].copy(), d.qvel.numpy()[0].copy()
         hist_w.append(ta >= 0)
         hist_m.append(mjd.tree_asleep.copy() >= 0)
+        raw_m.append(mjd.tree_asleep.copy())
         info = dict(xml=xml, step=i, order=order, perturbations={str(k): list(v) for k, v in perts.items()})
         if (d.overflow.numpy() & 0x1FF).any() or not (np.isfinite(qpos).all() and np.isfinite(qvel).all() and np.isfinite(mjd.qpos).all() and np.abs(mjd.qvel).max() < 1e3):
           acc.hit("overflow-or-unstable-history-cut")
-          hist_w.pop(); hist_m.pop()
+          hist_w.pop(); hist_m.pop(); raw_m.pop()
           break
         if not _wellformed(ta):
           acc.find(f"tree_asleep {ta.tolist()} is not well-formed (a sleeping entry is not on a closed cycle)", "sleep.sleep/_build_cycles", "not-wellformed", **info)
@@ -218,11 +219,15 @@ def _run(ctx, ncases, nsteps, rec):
         if amb:
           acc.hit("evolution-ambiguous-skipped")
           continue
-        early = i + 1 < L and np.array_equal(hist_w[i], hist_m[i + 1]) and all(hist_w[i][t] and not hist_m[i][t] for t in diff)
+        # the recorded deviation: mujoco_warp counts the velocity AFTER integration, MuJoCo the one BEFORE, i.e. the same samples one
+        # step later. So when a tree is asleep here and not in MuJoCo, MuJoCo must be at the last stage of its countdown (-2: nine of
+        # its ten quiet samples seen). (MuJoCo need not follow at the next step: its tree keeps moving and may leave the tolerance.)
+        early = all(hist_w[i][t] and not hist_m[i][t] and int(raw_m[i][t]) >= -2 for t in diff)
         if early:
           acc.hit("one-step-early")
-          acc.find(f"trees {diff.tolist()} are asleep after step {i} where MuJoCo puts them to sleep at step {i + 1}: the quiet-step count uses the velocity AFTER integration, MuJoCo's uses it BEFORE",
+          acc.find(f"trees {diff.tolist()} are asleep after step {i} while MuJoCo is still at the last stage of its countdown: the quiet-step count uses the velocity AFTER integration, MuJoCo's uses it BEFORE",
                    "forward._advance/sleep.sleep", "asleep-one-step-before-mujoco", xml=xml, step=i, order=order)
+          break   # from here on the two implementations hold different states: later differences are consequences
         else:
           # only the first unexplained difference of a history is meaningful: afterwards the two trajectories are different
           acc.find(f"awake/asleep evolution differs from MuJoCo at step {i}: warp asleep {hist_w[i].astype(int).tolist()} mujoco {hist_m[i].astype(int).tolist()}", "sleep", "evolution-differs",
